@@ -65,7 +65,7 @@ func timeUnit(v ssa.Value, depth int) string {
 		}
 	case *ssa.Call:
 		if f := x.Call.StaticCallee(); f != nil && f.String() == "(time.Duration).Seconds" {
-			if timeUnit(x.Call.Args[0], depth+1) == "ns" {
+			if timeUnit(rawArgs(x)[0], depth+1) == "ns" {
 				return "s"
 			}
 		}
@@ -270,7 +270,7 @@ func c12(c *core.Ctx) {
 			if !r.Reachable(a.Instr) {
 				continue
 			}
-			arg := a.Instr.Common().Args[1]
+			arg := rawArgs(a.Instr)[1]
 			if ssax.AnyIn(ssax.Backward(arg), isMsgExp) {
 				okCap, at = false, a.Instr
 			}
